@@ -403,6 +403,16 @@ def chk_ctors(c):
     assert np.allclose(V[1, 0], [0.25 + 0.5, 0.25 * 0.5]), 'UserFunction grid_eval axis order (x is the last axis)'
     b = f.boundary('left')
     assert np.allclose(b(0.7), f(0.0, 0.7))
+    # the quadratic B-spline quarter annulus: straight radial edges from r1 to r2 on the two axes, mid-arc control polygon value
+    for (r1, r2) in ((1.0, 2.0), (0.5, 3.0)):
+        Q = geometry.bspline_quarter_annulus(r1, r2)
+        for xi in (0.0, 0.3, 1.0):
+            r = r1 + xi * (r2 - r1)
+            assert np.allclose(Q(xi, 0.0), [r, 0.0], atol=1e-14) and np.allclose(Q(xi, 1.0), [0.0, r], atol=1e-14), 'bspline_quarter_annulus: radial edges'
+            assert np.allclose(Q(xi, 0.5), [0.75 * r, 0.75 * r], atol=1e-14), 'bspline_quarter_annulus: mid-arc point of the quadratic Bezier arc'
+    P0 = geometry.perturbed_square(num_intervals=3, noise=0.0)
+    gp = [np.linspace(0, 1, 4), np.linspace(0, 1, 5)]
+    assert np.allclose(P0.grid_eval(gp), geometry.unit_square().grid_eval(gp), atol=1e-14), 'perturbed_square(noise=0) is the unit square'
     # composition
     inner = geometry.unit_square().scale((0.5, 0.5))
     outer = bspline.BSplineFunc(geometry.unit_square().kvs, np.arange(8.0).reshape(2, 2, 2))
